@@ -75,7 +75,7 @@ def run_tlc(module: str, cfg: str, *, prop: str, workers: int | str = 1,
   shutil.rmtree(meta, ignore_errors=True)
   os.makedirs(meta, exist_ok=True)
   cfg_path = cfg if os.path.isabs(cfg) else os.path.join(SPEC, 'mc', cfg)
-  cmd = ['java', '-XX:+UseParallelGC', '-Xmx8g']
+  cmd = ['java', '-XX:+UseParallelGC', '-Xmx8g', '-Xss256m']
   if deque:
     cmd.append('-Dtlc2.tool.queue.IStateQueue=StateDeque')
   cmd += ['-cp', TLC_CP, 'tlc2.TLC', '-workers', str(workers), '-metadir', meta,
@@ -114,7 +114,7 @@ def run_tlc(module: str, cfg: str, *, prop: str, workers: int | str = 1,
       cases.append(payload)
       continue
     m = _ACT_RE.match(line)
-    if m and m.group(2) == module.split('/')[-1]:
+    if m:      # actions of extended modules count too (ColumnTendency runs ImplicitSolve's actions)
       cov[m.group(1)] = cov.get(m.group(1), 0) + int(m.group(4))
   states = transitions = depth_found = 0
   m = re.search(r'(\d+) states generated, (\d+) distinct states found', out)
